@@ -246,8 +246,16 @@ func hasUpper(s string) bool {
 func explainedBy(e *eco, a, b string) string {
 	cl := knownClass(e, a, b)
 	if cl == "RubyGemsUppercase" {
-		v, err := evaluate(e, strings.ToLower(a), strings.ToLower(b))
-		if err != nil || !v.inDomain || v.obs != "" {
+		// "the library folds case": what the library says about (a, b) as
+		// written must be what the reference says about the lower-cased pair
+		// (a defect that shows on upper-case input only is not explained).
+		_, _, rc, status, err := e.ref(strings.ToLower(a), strings.ToLower(b))
+		if err != nil || status != "ok" {
+			return ""
+		}
+		pa, ea := e.sys.Parse(a)
+		pb, eb := e.sys.Parse(b)
+		if ea != nil || eb != nil || sgn(pa.Compare(pb)) != rc || sgn(pb.Compare(pa)) != -rc {
 			return ""
 		}
 	}
